@@ -1114,6 +1114,11 @@ def _filter_common(cx, r):
               measurements=Arg(meas if (meas or r.random() < 0.5) else None, 'plain'),
               time_step=Arg(float(r.choice([0.1, 0.3, 1.0]))),
               with_altitude=Arg(bool(r.random() < 0.5)))
+    if r.random() < 0.2:
+        # the documented defaults: no sensor models handed over at all
+        # (tools/reach.py showed that the programs never took the default branches)
+        kw.pop('gyro_model')
+        kw.pop('accel_model')
     return inc, traj, sds, kw
 
 
@@ -1130,7 +1135,8 @@ def _(cx, r):
 @template('filters.run_feedforward_filter')
 def _(cx, r):
     inc, traj, sds, kw = _filter_common(cx, r)
-    kw['increments'] = Arg(inc, 'table')
+    if 'gyro_model' in kw or r.random() < 0.5:
+        kw['increments'] = Arg(inc, 'table')       # (optional without sensor models)
     nominal = traj if r.random() < 0.5 else traj.copy()
     return Call('filters.run_feedforward_filter',
                 lambda *a, **k: dict(filters.run_feedforward_filter(*a, **k)),
